@@ -359,6 +359,30 @@ pub fn c03(tier: Tier) -> i32 {
             vec![file("E1.sol", b""), file("E2.sol", b""), file("Blank.sol", b" \n\t\r\n"), file("Z.sol", pq), d("zz", vec![file("Y.sol", p)])],
         ];
         trees.extend(extra);
+        // files that refer to each other: imports between siblings (also cyclic, of itself, of a missing file, of a file in
+        // a sub-directory) and a derived contract in another file that writes the base contract's variables
+        let imp = |imports: &str, body: &str| format!("{}{}", imports, body);
+        let base = "pragma solidity ^0.8.0;\ncontract Base {\n  uint256 public fee = 100;\n  address public owner;\n  constructor() { owner = msg.sender; }\n}\n";
+        let derived = "pragma solidity ^0.8.0;\nimport \"./Base.sol\";\ncontract Derived is Base {\n  function setFee(uint256 f) external payable { fee = f; }\n  function setOwner(address o) external payable { owner = o; }\n}\n";
+        let related: Vec<Vec<Entry>> = vec![
+            vec![file("A.sol", imp("import \"./B.sol\";\n", SRC_P).as_bytes()), file("B.sol", imp("import {A} from \"./A.sol\";\n", SRC_PQ).as_bytes())],
+            vec![file("Self.sol", imp("import \"./Self.sol\";\n", SRC_PQ).as_bytes()), file("Other.sol", p)],
+            vec![file("A.sol", imp("import \"./B.sol\";\n", SRC_P).as_bytes()), file("B.sol", imp("import \"./C.sol\";\n", SRC_PQ).as_bytes()), file("C.sol", imp("import * as X from \"./A.sol\";\n", SRC_P2).as_bytes())],
+            vec![file("A.sol", imp("import \"./Missing.sol\";\nimport \"./sub/B.sol\";\nimport \"../up.sol\";\n", SRC_P).as_bytes()), d("sub", vec![file("B.sol", imp("import \"../A.sol\";\n", SRC_PQ).as_bytes())])],
+            vec![file("Base.sol", base.as_bytes()), file("Derived.sol", derived.as_bytes())],
+            vec![d("core", vec![file("Base.sol", base.as_bytes())]), file("Derived.sol", derived.replace("./Base.sol", "./core/Base.sol").as_bytes()), file("Zed.sol", pq)],
+        ];
+        trees.extend(related);
+        // directory and file names with characters that are special to shells, globs, lists, URLs and format strings; next to
+        // each a sibling named like the part before the special character
+        for special in [",", " ", ";", ":", "=", "'", "\"", "*", "?", "[x]", "#", "%20", "|", "&", "$", "~", "+", "{line}", "{}", "(1)", "@", "!", "\t", "\\", "^", "`", "<", ">", "..", "%s"] {
+            let dname = format!("pool{}staking", special);
+            trees.push(vec![d(&dname, vec![file("In.sol", p)]), d("pool", vec![file("Plain.sol", pq)])]);
+            trees.push(vec![file(&format!("Tok{}en.sol", special), p), d("sub", vec![file(&format!("{}x.sol", special), pq)]), file("Tok.sol", p2)]);
+        }
+        for lead in ["-rf", "--path", "-", ".hidden", "~", "#x#"] {
+            trees.push(vec![d(lead, vec![file("In.sol", p)]), file(&format!("{}.sol", lead), pq)]);
+        }
     }
     let sels = selections(tier);
     let res = util::par_map(trees.len(), |ti| {
@@ -968,9 +992,61 @@ pub fn c13_directory_level(tier: Tier) -> DirLevel {
             file("Amm.sol", crate::c15::BODY_A.as_bytes()),
             file("Bank.sol", crate::c15::BODY_B.as_bytes()),
             Entry::Dir { name: "lib".into(), children: vec![file("Core.sol", crate::c15::BODY_C.as_bytes()), file("Quoter.sol", crate::c15::BODY_E1.as_bytes())] },
+            // a base contract and, in another file, a derived contract that writes the base's variables
+            file("Base.sol", b"pragma solidity ^0.8.0;\ncontract Base {\n  uint256 public fee = 100;\n  address public owner;\n  constructor() { owner = msg.sender; }\n}\n"),
+            file("Derived.sol", b"pragma solidity ^0.8.0;\nimport \"./Base.sol\";\ncontract Derived is Base {\n  function setFee(uint256 f) external payable { fee = f; }\n  function setOwner(address o) external payable { owner = o; }\n}\n"),
         ];
         materialise(&root, &tree);
         let r = root.to_str().unwrap().to_string();
+        // all 30 patterns under EVERY listing order of this tree (5! x 2! orders)
+        {
+            let all_o = opt::get_all_optimizations();
+            let all_v = vul::get_all_vulnerabilities();
+            let all_q = qa::get_all_qa();
+            let orders = all_orders(&root, &tree);
+            let reps = util::par_map(orders.len(), |k| {
+                let order = orders[k].clone();
+                std::thread::scope(|sc| {
+                    sc.spawn(|| {
+                        solstat::verif_fs::set_order(order);
+                        let rep = util::guarded(|| {
+                            let mut rep = String::new();
+                            rep.push_str(&solstat::report::vulnerability_report::generate_vulnerability_report(vul::analyze_dir(&r, all_v.clone())));
+                            rep.push_str(&solstat::report::optimization_report::generate_optimization_report(opt::analyze_dir(&r, all_o.clone())));
+                            rep.push_str(&solstat::report::qa_report::generate_qa_report(qa::analyze_dir(&r, all_q.clone())));
+                            rep
+                        });
+                        solstat::verif_fs::clear_order();
+                        rep
+                    })
+                    .join()
+                    .unwrap()
+                })
+            });
+            dl.states += orders.len() as u64;
+            dl.transitions += 3 * orders.len() as u64;
+            let first = reps.first().cloned();
+            for (k, rep) in reps.iter().enumerate() {
+                match (rep, &first) {
+                    (Ok(a), Some(Ok(f0))) => {
+                        reports_seen.insert(util::fnv(a));
+                        if a != f0 {
+                            dl.violations.push(Violation {
+                                site: "directory:report-depends-on-listing-order:all-patterns".into(),
+                                input: format!("tree {} listing {:?}", describe(&tree), orders[k].values().collect::<Vec<_>>()),
+                                expected: "byte-identical rendering for every listing order".into(),
+                                observed: format!("differs from the rendering under listing {:?}", orders[0].values().collect::<Vec<_>>()),
+                                size: tree.len(),
+                                unit_test: String::new(),
+                                extra: json!({"first": f0, "other": a}),
+                            });
+                        }
+                    }
+                    (Err(e), _) => dl.violations.push(Violation { site: "directory:panic".into(), input: describe(&tree), expected: "returns".into(), observed: e.clone(), size: 0, unit_test: String::new(), extra: json!({}) }),
+                    _ => {}
+                }
+            }
+        }
         fn orders_of(n: usize) -> Vec<Vec<usize>> {
             let id: Vec<usize> = (0..n).collect();
             let mut v = vec![id.clone(), id.iter().rev().cloned().collect()];
